@@ -69,7 +69,7 @@ def pairUp : List Nat → Bytes
 
 def canonicalT : List Char := "xxxxxxxx-xxxx-xxxx-xxxx-xxxxxxxxxxxx".toList
 def bracedT : List Char := "{xxxxxxxx-xxxx-xxxx-xxxx-xxxxxxxxxxxx}".toList
-def urnT : List Char := "uuurununu:uuuuuiudu:xxxxxxxx-xxxx-xxxx-xxxx-xxxxxxxxxxxx".toList
+def urnT : List Char := "uuurun:uuuuuiud:xxxxxxxx-xxxx-xxxx-xxxx-xxxxxxxxxxxx".toList
 def bareT : List Char := "xxxxxxxxxxxxxxxxxxxxxxxxxxxxxxxx".toList
 
 /-- the 16 bytes denoted by text that is exactly one UUID in one of the four forms -/
